@@ -70,6 +70,11 @@ func NewGsfaReader(indexRootDir string) (*GsfaReader, error) {
 }
 
 func (index *GsfaReader) SetEpoch(epoch uint64) {
+	if index.epoch != nil && *index.epoch == epoch {
+		// Already set (the request handlers call this on every request, concurrently):
+		// do not write again, so that concurrent readers do not race with the store.
+		return
+	}
 	index.epoch = &epoch
 }
 
